@@ -4,7 +4,7 @@
 use std::collections::{BTreeMap, BTreeSet};
 
 use aranya_runtime::{
-    Address, ClientError, ClientState, CmdId, Command, CommandExt, GraphId, Location, MaxCut, MemSpill, PeerCache, Prior,
+    Address, ClientError, ClientState, CmdId, Command, CommandExt, GraphId, Location, MaxCut, PeerCache, Prior,
     RuntimeBuffers, Segment, Storage, StorageProvider, SyncError, SyncIncoming, SyncRequester, SyncResponder,
     Transaction,
     storage::linear::{LinearStorageProvider, libc::FileManager, testing::MemStorageProvider},
@@ -94,11 +94,11 @@ impl<SP: StorageProvider> Replica<SP> {
     }
 
     pub fn add(&mut self, trx: &mut Transaction<SP, AuditStore>, cmds: &[OwnedCmd]) -> Result<usize, ClientError> {
-        self.client.add_commands(trx, &mut self.sink, cmds, &mut self.bufs, MemSpill::new)
+        self.client.add_commands(trx, &mut self.sink, cmds, &mut self.bufs, CappedSpill::new)
     }
 
     pub fn commit(&mut self, trx: Transaction<SP, AuditStore>) -> Result<bool, ClientError> {
-        self.client.commit(trx, &mut self.sink, &mut self.bufs, MemSpill::new)
+        self.client.commit(trx, &mut self.sink, &mut self.bufs, CappedSpill::new)
     }
 
     pub fn flush(&mut self, trx: &mut Transaction<SP, AuditStore>) -> Result<(), ClientError> {
@@ -107,7 +107,7 @@ impl<SP: StorageProvider> Replica<SP> {
     }
 
     pub fn action(&mut self, a: ActionScript) -> Result<(), ClientError> {
-        self.client.action(self.gid, &mut self.sink, a, &mut self.bufs, MemSpill::new)
+        self.client.action(self.gid, &mut self.sink, a, &mut self.bufs, CappedSpill::new)
     }
 
     pub fn new_graph(&mut self) -> Result<GraphId, ClientError> {
@@ -261,4 +261,41 @@ pub fn kind_of_bytes(b: &[u8]) -> Option<Kind> {
 
 pub fn prior_ids(p: Prior<Address>) -> Vec<CmdId> {
     p.into_iter().map(|a| a.id).collect()
+}
+
+
+/// In-memory spill with a hard size cap. The runtime's braid and convergence-map overflow needs at most a few
+/// MiB for the graphs generated here (131 072 convergence entries x 24 B; 16 B per braided command); a spill
+/// that grows past 48 MiB is a runaway loop, which this turns into an I/O error instead of exhausting memory.
+pub struct CappedSpill {
+    data: Vec<u8>,
+}
+
+pub const SPILL_CAP: usize = 48 << 20;
+
+impl CappedSpill {
+    pub fn new() -> Result<Self, aranya_runtime::StorageError> {
+        Ok(CappedSpill { data: Vec::new() })
+    }
+}
+
+impl aranya_runtime::Spill for CappedSpill {
+    fn write_at(&mut self, offset: usize, data: &[u8]) -> Result<(), aranya_runtime::StorageError> {
+        let end = offset.checked_add(data.len()).ok_or(aranya_runtime::StorageError::IoError)?;
+        if end > SPILL_CAP {
+            return Err(aranya_runtime::StorageError::IoError);
+        }
+        if self.data.len() < end {
+            self.data.resize(end, 0);
+        }
+        self.data[offset..end].copy_from_slice(data);
+        Ok(())
+    }
+
+    fn read_at(&mut self, offset: usize, data: &mut [u8]) -> Result<(), aranya_runtime::StorageError> {
+        let end = offset.checked_add(data.len()).ok_or(aranya_runtime::StorageError::IoError)?;
+        let src = self.data.get(offset..end).ok_or(aranya_runtime::StorageError::IoError)?;
+        data.copy_from_slice(src);
+        Ok(())
+    }
 }
